@@ -294,6 +294,7 @@ type simTransport struct {
 	// SentAfterShutdown counts writes that arrive after Shutdown returned.
 	SentAfterShutdown int
 	Dials             int
+	AdvertiseErr      bool // FinalAdvertiseAddr fails from now on
 }
 
 func newSimTransport(ip net.IP, port int) *simTransport {
@@ -301,7 +302,16 @@ func newSimTransport(ip net.IP, port int) *simTransport {
 		pktCh: make(chan *ml.Packet, 8192), streamCh: make(chan net.Conn, 256)}
 }
 
-func (t *simTransport) FinalAdvertiseAddr(string, int) (net.IP, int, error) { return t.ip, t.port, nil }
+func (t *simTransport) FinalAdvertiseAddr(string, int) (net.IP, int, error) {
+	t.mu.Lock()
+	fail := t.AdvertiseErr
+	t.mu.Unlock()
+	if fail {
+		// an environment answer: the address lookup worked at start-up and fails now (interface gone)
+		return nil, 0, errors.New("no private IP address found, and explicit IP not provided")
+	}
+	return t.ip, t.port, nil
+}
 func (t *simTransport) WriteTo(b []byte, a string) (time.Time, error) {
 	return t.WriteToAddress(b, ml.Address{Addr: a})
 }
